@@ -383,6 +383,22 @@ func main() {
 		}
 		p := filepath.Join(files, phase+"_"+name+".dat")
 		tok := r.Hex(16)
+		if spec.OutsideDir != "" && t.Kind != pgen.KPath && r.Pct(25) {
+			// a file output lying outside the pipestance (or a symlink to one)
+			content := "tok:" + tok + "\n" + strings.Repeat("o", r.Intn(300))
+			op := filepath.Join(spec.OutsideDir, strings.ReplaceAll(job, "/", "_")+"_"+phase+"_"+name+".dat")
+			os.MkdirAll(spec.OutsideDir, 0755)
+			if os.WriteFile(op, []byte(content), 0644) == nil {
+				if r.Pct(50) {
+					wr = append(wr, written{Path: op, Size: int64(len(content)), Tok: tok, Kind: "outside"})
+					return op
+				}
+				if os.Symlink(op, p) == nil {
+					wr = append(wr, written{Path: p, Size: int64(len(content)), Tok: tok, Kind: "out-symlink"})
+					return p
+				}
+			}
+		}
 		if r.Pct(spec.PMissingFile) {
 			missing = append(missing, p)
 			return p
